@@ -31,6 +31,7 @@ CmdMatch(c, j) ==
        [] c.t = "DeliverMessage" -> c.to = j.to /\ c.m = j.m
        [] c.t = "QueryAndAwait" -> c.a = j.a /\ c.ts = j.ts
        [] c.t = "UpdateAwaitResults" -> c.a = j.a /\ c.rs = j.rs
+       [] c.t = "EffectCompletion" -> c.p = j.p /\ c.ok = j.ok /\ (IF c.ok THEN c.v = j.v ELSE c.e = j.e)
        [] OTHER -> FALSE
 
 EvtMatch(e, j) ==
@@ -40,6 +41,7 @@ EvtMatch(e, j) ==
        [] e.t = "AwaitAction" -> e.a = j.a /\ e.ts = j.ts
        [] e.t = "ProcessResults" -> e.a = j.a /\ e.rs = j.rs
        [] e.t = "ResultResponse" -> e.r = j.r
+       [] e.t = "EffectRequest" -> e.p = j.p /\ e.res = j.res
        [] OTHER -> FALSE
 
 SeqMatch(xs, js, M(_, _)) == Len(xs) = Len(js) /\ \A i \in 1..Len(xs) : M(xs[i], js[i])
@@ -67,6 +69,8 @@ PostW(w, post) ==
   /\ spawning'[w] = ToSet(post.spawning)
   /\ selecting'[w] = ToSet(post.selecting)
   /\ awaited'[w] = ToSet(post.awaited)
+  /\ effecting'[w] = ToSet(post.effecting)
+  /\ nextRef'[w] = post.nextref
   /\ awaitersFor'[w] = post.awaiters
   /\ \A i \in 1..Len(post.procs) :
         LET pr == post.procs[i]
@@ -88,6 +92,7 @@ TraceReset ==
      /\ selecting' = I.selecting /\ awaited' = I.awaited /\ awaitersFor' = I.awaitersFor
      /\ resultReq' = I.resultReq /\ proc' = I.proc /\ router' = I.router /\ nextPid' = I.nextPid
      /\ pending' = I.pending /\ now' = I.now /\ outcome' = I.outcome /\ obs' = I.obs
+     /\ effecting' = I.effecting /\ nextRef' = I.nextRef /\ owner' = I.owner /\ backend' = I.backend
 
 IdleRecord(r) == r.consumed = <<>> /\ r.emitted = <<>> /\ r.ops = <<>>
 
@@ -118,6 +123,15 @@ TraceEnv ==
                 SeqMatch(NewSuffix(cmdQ[x], cmdQ'[x]),
                          SelectSeq(R.cmds, LAMBDA c : c.w = x),
                          LAMBDA c, j : CmdMatch(c, j.c))
+          /\ owner' = R.post.owner
+          /\ LET nb == NewSuffix(obs.backend, obs'.backend) IN
+             /\ Len(nb) = Len(R.backend)
+             /\ \A i \in 1..Len(nb) : \E j \in 1..Len(R.backend) :
+                   /\ nb[i].call = R.backend[j].call
+                   /\ IF nb[i].call = "close"
+                      THEN nb[i].res = R.backend[j].res /\ nb[i].was_open = R.backend[j].was_open
+                      ELSE nb[i].p = R.backend[j].p /\ nb[i].op = R.backend[j].op /\ nb[i].res = R.backend[j].res
+                           /\ nb[i].created = R.backend[j].created /\ nb[i].ok = R.backend[j].ok
           /\ Len(pending') = Len(R.post.pending)
           /\ \A i \in 1..Len(pending') :
                 /\ pending'[i][1] = R.post.pending[i][1]
@@ -140,6 +154,7 @@ TraceInit == l = 2 /\ Rec[1].k = "init" /\
   /\ selecting = I.selecting /\ awaited = I.awaited /\ awaitersFor = I.awaitersFor
   /\ resultReq = I.resultReq /\ proc = I.proc /\ router = I.router /\ nextPid = I.nextPid
   /\ pending = I.pending /\ now = I.now /\ outcome = I.outcome /\ obs = I.obs
+  /\ effecting = I.effecting /\ nextRef = I.nextRef /\ owner = I.owner /\ backend = I.backend
 
 TraceNext ==
   /\ l <= Len(Rec)
